@@ -350,6 +350,30 @@ def run(ctx):
         r.check(ok, "llb_buildengine_task_is_complete|memcpy", "", "value bytes copied with a length other than value->length", f, c)
 
     # ------------------------------------------------------------------
+    r = rep.rule("R-KEY-FROM-ENGINE", "a key handed back to the client (cycle report, status and validity callbacks) is the engine's own copy of the key: the `key` member "
+                                      "of the llb_rule_t the client filled in during lookup_rule is only valid for the duration of that call (core.h) and is never read "
+                                      "by the binding afterwards", floor=1)
+    reads = []
+    for f in cfuncs:
+        for n in f.nodes:
+            if n.get("k") == "member" and re.search(r"llb_rule_t_?::key$", n.get("qn", "")):
+                par = f.parent_of(n)
+                is_write = par is not None and par.get("k") == "bin" and par.get("op") == "=" and par.child("l") is n
+                if not is_write:
+                    reads.append((f, n))
+    for f, n in reads[:4]:
+        r.violation("%s|reads-client-key" % (f.name.split("::")[-1] if not f.is_lambda else f.key), "%s reads the client's llb_rule_t::key after lookup_rule returned: the storage behind it "
+                    "may be gone or reused — the engine's Rule::key is the key" % f.name.split("::")[-1], f, n)
+    cd = [g for g in cfuncs if g.name.endswith("CAPIBuildEngineDelegate::cycleDetected")]
+    if len(cd) != 1:
+        raise AnalysisBroken("cycleDetected override not found")
+    cd = cd[0]
+    il = [n for n in cd.nodes if n.get("k") == "initlist" and n.ctype().replace("const ", "") in ("llb_data_t", "llb_data_t_", "struct llb_data_t_")]
+    oke = bool(il) and all(any(x.get("k") == "member" and x.get("qn", "").endswith("core::Rule::key") for x in n.walk()) or "key" in expr_str(n) for n in il)
+    if not reads:
+        r.check(oke, "cycleDetected|keys-from-Rule::key", "", "the reported cycle is not built from the engine's Rule::key of each item", cd)
+
+    # ------------------------------------------------------------------
     r = rep.rule("R-ENUM-AGREE", "enums converted across the boundary keep their meaning: a conversion by cast needs identical numeric tables; a conversion by "
                                  "`switch` maps every enumerator to the one of the same name / value", floor=1)
     seen = set()
@@ -514,4 +538,6 @@ VARIANTS = [
     dict(name="benign-status-enum-switch-correct", file=CC, old="      rule.update_status(rule.context, engineContext,\n                         (llb_rule_status_kind_t)status);",
          new="      llb_rule_status_kind_t kind = llb_rule_is_scanning;\n      switch (status) {\n      case Rule::StatusKind::IsScanning: kind = llb_rule_is_scanning; break;\n      case Rule::StatusKind::IsUpToDate: kind = llb_rule_is_up_to_date; break;\n      case Rule::StatusKind::IsComplete: kind = llb_rule_is_complete; break;\n      }\n      rule.update_status(rule.context, engineContext, kind);",
          expect=None),
+    dict(name="cycle-report-uses-client-key-storage", file=CC, old="      const KeyType &key = item->key;\n      keys.push_back({ key.size(), (const uint8_t*)key.data() });",
+         new="      keys.push_back(static_cast<CAPIRule*>(item)->rule.key);", expect=("R-KEY-FROM-ENGINE", "reads-client-key")),
 ]
